@@ -423,10 +423,11 @@ class AbortTracer(object):
     """Raise SimAbort at the k-th line event executed inside labella code
     (optionally only counting lines of one file, or of lambdas)."""
 
-    def __init__(self, k, scope="any", exc=None):
+    def __init__(self, k, scope="any", exc=None, func=None):
         self.k = k
         self.scope = scope
         self.exc = exc or SimAbort
+        self.func = tuple(func) if func else None  # (file, function): count only its lines
         self.n = 0
         self.fired = False
         self.where = None
@@ -438,7 +439,11 @@ class AbortTracer(object):
 
     def _local(self, frame, event, arg):
         if event == "line":
-            if self.scope != "any":
+            if self.func is not None:
+                code = frame.f_code
+                if code.co_name != self.func[1] or os.path.basename(code.co_filename) != self.func[0]:
+                    return self._local
+            elif self.scope != "any":
                 code = frame.f_code
                 if self.scope == "<lambda>":
                     if code.co_name != "<lambda>":
@@ -470,10 +475,14 @@ class _CountTracer(AbortTracer):
     def __init__(self, scope):
         AbortTracer.__init__(self, -1, scope)
         self.n_any = 0
+        self.per_func = {}
 
     def _local(self, frame, event, arg):
         if event == "line":
             self.n_any += 1
+            code = frame.f_code
+            key = os.path.basename(code.co_filename) + ":" + code.co_name
+            self.per_func[key] = self.per_func.get(key, 0) + 1
         return AbortTracer._local(self, frame, event, arg)
 
 
@@ -482,8 +491,9 @@ def dry_count(fn, scope):
 
     The dry run happens in a fork()ed copy of this process, so it needs nothing
     from the objects involved (no deepcopy) and leaves no trace in this process.
-    Returns (n_scope, n_any)."""
+    Returns (n_scope, n_any, {"file:function": n})."""
     from .util import HarnessError
+    import json
     import select
 
     r, w = os.pipe()
@@ -502,7 +512,10 @@ def dry_count(fn, scope):
                     fn()
             except BaseException:
                 sys.settrace(None)
-            os.write(w, ("%d %d" % (tr.n, tr.n_any)).encode())
+            data = json.dumps([tr.n, tr.n_any, tr.per_func]).encode()
+            off = 0
+            while off < len(data):
+                off += os.write(w, data[off: off + 65536])
             os.close(w)
         except BaseException:
             code = 4
@@ -531,10 +544,36 @@ def dry_count(fn, scope):
             pass
         os.waitpid(pid, 0)
     try:
-        a, b = data.decode().split()
-        return int(a), int(b)
+        a, b, per_func = json.loads(data.decode())
+        return int(a), int(b), per_func
     except Exception:
-        raise HarnessError("dry run for an abort point gave no count (%r)" % (data,))
+        raise HarnessError("dry run for an abort point gave no count (%r)" % (data[:200],))
+
+
+def abort_point(fn, scope, frac, strat=None):
+    """Where to inject: returns (k, scope, func) for AbortTracer.
+
+    Plain placement: the k-th line event in scope, k at fraction frac/1e6 of
+    the events a dry run counts (uniform over executed lines, so hot loops get
+    most aborts).  Stratified placement (strat given): first one of the
+    functions the dry run executed in scope (each equally likely, so that code
+    a call spends three lines in is interrupted as often as its hot loops),
+    then a line event of that function at fraction frac/1e6."""
+    total, total_any, per_func = dry_count(fn, scope)
+    if total == 0:
+        scope = "any"
+        total = total_any
+    if strat is not None and per_func:
+        if scope == "<lambda>":
+            funcs = sorted(k for k in per_func if k.endswith(":<lambda>"))
+        elif scope != "any":
+            funcs = sorted(k for k in per_func if k.startswith(scope + ":"))
+        else:
+            funcs = sorted(per_func)
+        if funcs:
+            key = funcs[strat % len(funcs)]
+            return 1 + (per_func[key] * frac) // 1000000, scope, key.split(":", 1)
+    return 1 + (total * frac) // 1000000, scope, None
 
 
 def frame_depth():
